@@ -256,4 +256,69 @@ def rule_e(ctx: Ctx) -> None:
                 'must override the predicate and consult its simple content.')
 
 
-RULES = [rule_a, rule_b, rule_c, rule_d, rule_e]
+def _fixed_comparison(ctx: Ctx, f, e: ast.AST, depth: int = 0) -> bool:
+    """Does the test ``e`` compare something with the declared fixed value (directly, through strictly_equal, or through a
+    method of self whose body does)?"""
+    for x in ast.walk(e):
+        if isinstance(x, ast.Compare) and any(isinstance(op, (ast.Eq, ast.NotEq)) for op in x.ops):
+            sides = [x.left] + list(x.comparators)
+            if any('self.fixed' in text(sd) for sd in sides) and not all(text(sd) in ('self.fixed', 'None') for sd in sides):
+                return True
+        if isinstance(x, ast.Call) and text(x.func) == 'strictly_equal' and any('self.fixed' in text(a) for a in x.args):
+            return True
+        if isinstance(x, ast.Call) and isinstance(x.func, ast.Attribute) and text(x.func.value) == 'self' and f.cls is not None and depth < 2:
+            m = f.cls.find_method(x.func.attr)
+            if m is not None and not isinstance(m.node, ast.Lambda) and 'self.fixed' in text(m.node):
+                if any(_fixed_comparison(ctx, m, r.value, depth + 1) for r in ast.walk(m.node) if isinstance(r, ast.Return) and r.value is not None) or \
+                        any(_fixed_comparison(ctx, m, t.test, depth + 1) for t in ast.walk(m.node) if isinstance(t, ast.If)):
+                    return True
+    return False
+
+
+def rule_g(ctx: Ctx) -> None:
+    """Decoder and encoder of a declaration are siblings: a value constraint that raw_decode enforces (the fixed value, compared in
+    the value space) must be enforced by raw_encode of the same class, or strict encoding returns XML the schema rejects."""
+    rule = 'C05.g'
+    n = 0
+    for c in ctx.idx.classes.values():
+        if not c.module.name.startswith('xmlschema.validators'):
+            continue
+        dec, enc = c.methods.get('raw_decode'), c.methods.get('raw_encode')
+        if dec is None or enc is None or isinstance(dec.node, ast.Lambda):
+            continue
+
+        def reports_under_fixed(f):
+            g = cfg_of(ctx, f)
+            tests = {text(x.ast.test): x.ast.test for x in g.nodes if x.kind in ('if', 'while')}
+            out = []
+            for node in g.stmt_nodes():
+                rep = any(is_reporter_call(cl) for e in node.exprs for cl in calls(e)) or \
+                    any(isinstance(cl.func, ast.Attribute) and cl.func.attr == 'append' and text(cl.func.value) == 'errors' for e in node.exprs for cl in calls(e))
+                if not rep:
+                    continue
+                if any(t in tests and _fixed_comparison(ctx, f, tests[t]) for t, lab in guards(ctx, f, node)):
+                    out.append(node)
+            return out
+        d = reports_under_fixed(dec)
+        if not d:
+            continue
+        n += 1
+        ctx.analysed(dec.qualname)
+        ctx.analysed(enc.qualname)
+        e = reports_under_fixed(enc)
+        ctx.ob(rule, f'{c.name}: raw_encode enforces the fixed value that raw_decode enforces', enc.loc(e[0].ast) if e else enc.loc(), bool(e),
+               '' if e else f'{c.name}.raw_decode reports a value different from the fixed one (line {d[0].lineno}); raw_encode has no report under a comparison '
+               'with self.fixed: strict encode() returns a document that the same schema rejects', key=f'{c.name}|encode-enforces-fixed')
+    ctx.floor(rule, 'declarations whose decoder enforces a fixed value', n, 2)
+    ctx.explain('C05.g: sibling cross-check raw_decode/raw_encode per class — reports (context.*_error calls or appends to the flushed '
+                '`errors` list) whose path condition compares with self.fixed (==, !=, strictly_equal, or a self-method that does).')
+
+
+def rule_f(ctx: Ctx) -> None:
+    """Strict encoding is sound only if a value is tested against the patterns of its *own* type: the pattern hand-off slot of the
+    context (shared by decode and encode) must be emptied by its consumer before any member type is processed (C02.g body)."""
+    from .c02 import rule_g as patterns_slot
+    patterns_slot(ctx, 'C05.f')
+
+
+RULES = [rule_a, rule_b, rule_c, rule_d, rule_e, rule_f, rule_g]
